@@ -3,12 +3,23 @@
  *        inserted-minus-erased multiset, in order           (mode "order")
  * C02 -- red-black rules after every insert and erase       (mode "rb")
  * C15 -- clear hands over each element exactly once         (mode "clear")
+ * A mode with the suffix "-mc" is the reduced workload for the valgrind
+ * memcheck pass (config rel-plain): element nodes start out undefined and
+ * VALGRIND_COUNT_ERRORS is polled after every operation.
  *
  * cases: [0, nscopes)   closure scopes (one tree type / pool / key count each)
  *        [nscopes, ...) seeded random histories
  *
  * The tree type is a property of the case (closure scope or random draw); in
  * mode "rb" every case is a red-black tree.
+ *
+ * Oracles: reference multiset of element addresses per tree (return values of
+ * find/erase/size after every call), traversal monitor (per-element
+ * PRE/MID/POST/LEAF state machine, monotone MID/LEAF keys, early stop), link
+ * walker (BST order, parent links, count; in mode "rb" the red-black rules and
+ * the height bound instead), exactly-once clear callback that poisons and
+ * frees; erased elements are poisoned and freed as well.  Local additions to
+ * the runtime: memcheck polling (above) and a CPU-time hang detector.
  */
 #include "vrt.h"
 #include "explore.h"
@@ -1108,9 +1119,9 @@ static uint64_t nrandom(void)
 {
     if (mc_mode) return mode == MODE_CLEAR ? 64 : 3000;
     switch (mode) {
-    case MODE_RB: return vrt_thorough ? 24000 : 5000;
+    case MODE_RB: return vrt_thorough ? 24000 : 4000;
     case MODE_CLEAR: return vrt_thorough ? 1500 : 96;
-    default: return vrt_thorough ? 60000 : 30000;
+    default: return vrt_thorough ? 60000 : 20000;
     }
 }
 #define NSC(a) ((int)(sizeof(a) / sizeof((a)[0])))
